@@ -180,6 +180,13 @@ def rule_window(ctx):
         raise AnalysisError("__find_hits: unsupported expression %s" % t)
     hl = sp.simplify(Yp - term(sl_e))
     hu = sp.simplify(term(su_e) - Yp)
+    if len(ss) == 2 and (-hl).is_positive and (-hu).is_positive:
+        # the two searches are written upper bound first: the lower bound is the one whose half-width is subtracted
+        sl_e, su_e = su_e, sl_e
+        ss_l, ss_u = ss_u, ss_l
+        sides = (sides[1], sides[0])
+        hl = sp.simplify(Yp - term(sl_e))
+        hu = sp.simplify(term(su_e) - Yp)
     # h^2 = c * x2 * lambda with lambda = 1/E
     cl = sp.simplify(hl ** 2 * E / X2)
     cu = sp.simplify(hu ** 2 * E / X2)
@@ -344,9 +351,13 @@ def rule_weights(ctx):
                 v = ev(n.args[0])
                 return v.applyfunc(sp.exp) if isinstance(v, sp.MatrixBase) else sp.exp(v)
             if isinstance(n.func, ast.Attribute) and n.func.attr == "sum":
-                v = ev(n.func.value)
+                fn_form = d.split(".")[0] in ("np", "numpy") and len(d.split(".")) == 2       # np.sum(x, axis) and x.sum(axis) alike
+                if fn_form and not n.args:
+                    raise AnalysisError("__gauss_prob: np.sum without an argument")
+                v = ev(n.args[0] if fn_form else n.func.value)
+                rest = n.args[1:] if fn_form else n.args
                 kw = {k.arg: norm(k.value) for k in n.keywords}
-                if kw.get("axis") == "1" or (n.args and norm(n.args[0]) == "1"):
+                if kw.get("axis") == "1" or (rest and norm(rest[0]) == "1"):
                     return sp.Matrix([[sum(v.row(i))] for i in range(v.rows)])
                 raise AnalysisError("__gauss_prob: sum over an unexpected axis: %s" % norm(n))
             if last in ("einsum",):
